@@ -194,30 +194,6 @@ Proof.
   (split; [rewrite wget_wset; destruct (decide (w = w)); done|done]).
 Qed.
 
-(* the executable law accepts every reachable state of the model *)
-Theorem law_amo_holds mx c b evs : let s := crun mx c b evs in
-  law_amo mx c b (log s) (seen s) (enq s) (present s) (retries s) false = true \/ mx = -1 /\ drops s <> 0%nat.
-Proof.
-  intros s. destruct (at_most_once mx c b evs) as (A1&A2&Sn&A3&A4&A5&A6&_). fold s in A1, A2, Sn, A3, A4, A5, A6.
-  destruct (inv_run mx c b evs) as [_ _ _ _ Or F _ _ _]. fold s in Or, F.
-  destruct (decide (mx = -1 /\ drops s <> 0%nat)) as [?|Hd]; [by right|left].
-  unfold law_amo. rewrite Or, Sn. simpl.
-  rewrite (bool_decide_true (length (enq s) <= 1)%nat) by done.
-  rewrite (bool_decide_true (length (enq s) <= count_out DOk (log s))%nat) by lia. simpl.
-  rewrite (bool_decide_true (present s = _)) by done.
-  rewrite (bool_decide_true (retries s <= _)%nat) by lia.
-  assert (X : negb (bool_decide (mx = -1)) || bool_decide (retries s = count_out DErr (log s) + count_out DErrApplied (log s))%nat = true).
-  { destruct (decide (mx = -1)) as [->|Hm]; [|by rewrite (bool_decide_false (mx = -1))].
-    rewrite (bool_decide_true (-1 = -1)) by done. simpl. apply bool_decide_eq_true.
-    destruct (decide (drops s = 0%nat)); [lia|]. exfalso. apply Hd. done. }
-  rewrite X. rewrite !andb_true_r.
-  apply andb_true_iff. split; [apply andb_true_iff; split|].
-  - apply forallb_forall. intros r Hr. rewrite Forall_forall in A3. apply bool_decide_eq_true.
-    apply A3. first [exact Hr | apply (proj2 (elem_of_list_In _ _)); exact Hr].
-  - destruct (enq s) eqn:E; [done|]. rewrite A4 by done. by rewrite orb_true_r.
-  - destruct b; [done|]. rewrite A5 by done. done.
-Qed.
-
 (* with unlimited retries nothing is ever dropped *)
 Lemma no_drop_unlimited c b evs : drops (crun (-1) c b evs) = 0%nat.
 Proof.
@@ -225,6 +201,110 @@ Proof.
   induction evs as [|e evs IH]; intros s H; simpl; [done|]. apply IH.
   destruct e as [w|w o|w]; simpl; destruct (wget s w); try done.
   destruct o, (present s); simpl; done.
+Qed.
+
+(* the executable law accepts every reachable state of the model; at quiescence also with
+   its "every successful Delete was followed by its execution" clause switched on *)
+Theorem law_amo_holds mx c b evs (quiet : bool) : let s := crun mx c b evs in
+  (quiet = true -> quiescent s) ->
+  law_amo mx c b (log s) (seen s) (enq s) (present s) (retries s) quiet = true.
+Proof.
+  intros s Hq. destruct (at_most_once mx c b evs) as (A1&A2&Sn&A3&A4&A5&A6&A7). fold s in A1, A2, Sn, A3, A4, A5, A6, A7.
+  destruct (inv_run mx c b evs) as [_ _ _ _ Or F _ _ _]. fold s in Or, F.
+  unfold law_amo. rewrite Or, Sn. simpl.
+  rewrite (bool_decide_true (length (enq s) <= 1)%nat) by done.
+  rewrite (bool_decide_true (length (enq s) <= count_out DOk (log s))%nat) by lia. simpl.
+  rewrite (bool_decide_true (present s = _)) by done.
+  rewrite (bool_decide_true (retries s <= _)%nat) by lia.
+  assert (X : negb (bool_decide (mx = -1)) || bool_decide (retries s = count_out DErr (log s) + count_out DErrApplied (log s))%nat = true).
+  { destruct (decide (mx = -1)) as [Hm|Hm]; [|by rewrite (bool_decide_false (mx = -1))].
+    rewrite (bool_decide_true (mx = -1)) by done. simpl. apply bool_decide_eq_true.
+    assert (drops s = 0%nat) by (unfold s; rewrite Hm; apply no_drop_unlimited). lia. }
+  assert (Y : negb quiet || bool_decide (length (enq s) = count_out DOk (log s)) = true).
+  { destruct quiet; [|done]. simpl. apply bool_decide_eq_true. by apply A7, Hq. }
+  rewrite X, Y. rewrite !andb_true_r.
+  apply andb_true_iff. split; [apply andb_true_iff; split|].
+  - apply forallb_forall. intros r Hr. rewrite Forall_forall in A3. apply bool_decide_eq_true.
+    apply A3. first [exact Hr | apply (proj2 (elem_of_list_In _ _)); exact Hr].
+  - destruct (enq s) eqn:E; [done|]. rewrite A4 by done. by rewrite orb_true_r.
+  - destruct b; [done|]. rewrite A5 by done. done.
+Qed.
+
+(* what the executable law MEANS (soundness at the Prop level): if it answers true on
+   observed Delete answers / requests, then the property's clauses hold of them *)
+Lemma prefix_ok_spec outs : forall sn acc,
+  prefix_ok acc outs sn = true ->
+  length outs = length sn /\
+  forall k n, nth_error sn k = Some n -> (n <= acc + count_out DOk (firstn k outs))%nat.
+Proof.
+  induction outs as [|o outs IH]; intros [|x sn] acc H; simpl in H; try done.
+  - split; [done|]. intros [|k] n Hn; done.
+  - apply andb_true_iff in H as [H1 H2]. apply bool_decide_eq_true in H1.
+    destruct (IH _ _ H2) as [Hl Hk]. split; [simpl; lia|].
+    intros [|k] n Hn; simpl in Hn.
+    + simplify_eq. unfold count_out. simpl. lia.
+    + simpl. rewrite count_out_cons. specialize (Hk k n Hn). lia.
+Qed.
+
+Theorem law_amo_sound mx c b outs sn enq p rt quiet :
+  law_amo mx c b outs sn enq p rt quiet = true ->
+  oracle_ok b outs = true /\                                     (* the answers respect the Delete oracle *)
+  (forall k n, nth_error sn k = Some n -> (n <= count_out DOk (firstn k outs))%nat) /\  (* at every Delete call: triggered <= deleted so far *)
+  (length enq <= 1)%nat /\ (length enq <= count_out DOk outs)%nat /\
+  Forall (fun r => r = req_of c) enq /\
+  (enq <> [] -> p = false) /\ (b = false -> enq = []) /\
+  (quiet = true -> length enq = count_out DOk outs).
+Proof.
+  unfold law_amo. intros H.
+  apply andb_true_iff in H as [H Hmx]. apply andb_true_iff in H as [H Hret].
+  apply andb_true_iff in H as [H Hpres]. apply andb_true_iff in H as [H Hb].
+  apply andb_true_iff in H as [H Hp]. apply andb_true_iff in H as [H Hf].
+  apply andb_true_iff in H as [H Hq]. apply andb_true_iff in H as [H Hc].
+  apply andb_true_iff in H as [H Hl]. apply andb_true_iff in H as [Hor Hpre].
+  apply bool_decide_eq_true in Hl, Hc.
+  split; [done|]. split.
+  { intros k n Hn. destruct (prefix_ok_spec _ _ _ Hpre) as [_ Hk]. specialize (Hk k n Hn). lia. }
+  split; [done|]. split; [done|]. split.
+  { apply Forall_forall. intros r Hr. rewrite forallb_forall in Hf. specialize (Hf r Hr).
+    by apply bool_decide_eq_true in Hf. }
+  split.
+  { intros Hne. apply orb_true_iff in Hp as [Hp|Hp].
+    - apply bool_decide_eq_true in Hp. done.
+    - by apply negb_true_iff in Hp. }
+  split.
+  { intros ->. simpl in Hb. by apply bool_decide_eq_true in Hb. }
+  intros ->. simpl in Hq. by apply bool_decide_eq_true in Hq.
+Qed.
+
+(* ---------- the sequential schedules the correspondence runs are histories of [cstep] ---------- *)
+Lemma seq_run_reach mx c : forall fuel queue sched s s' rest,
+  seq_run mx c fuel queue sched s = Some (s', rest) -> exists evs, s' = fold_left (cstep mx c) evs s.
+Proof.
+  induction fuel as [|fuel IH]; intros [|d q] sched s s' rest H; simpl in H; simplify_eq;
+    try (by exists []).
+  destruct (wget _ d); apply IH in H as [evs ->];
+    exists (CDelete d (answer (hd 0 sched) (present s)) :: CEnqueue d :: evs); done.
+Qed.
+
+Lemma fold_deliver mx c ids : forall s,
+  fold_left (fun s d => cstep mx c s (CDeliver d)) ids s = fold_left (cstep mx c) (map CDeliver ids) s.
+Proof. induction ids as [|d ids IH]; intros s; simpl; [done|apply IH]. Qed.
+
+Lemma seq_phase_reach mx c n sched s s' rest :
+  seq_phase mx c n sched s = Some (s', rest) -> exists evs, s' = fold_left (cstep mx c) evs s.
+Proof.
+  unfold seq_phase. intros H. apply seq_run_reach in H as [evs ->]. rewrite fold_deliver.
+  exists (map CDeliver (seq 0 n) ++ evs). by rewrite fold_left_app.
+Qed.
+
+(* the two phases of selector 2 (first batch, relist) end in a state of [crun]: every
+   clause of [at_most_once] applies to what the extracted model prints *)
+Theorem seq_two_phases_reach mx c b n1 n2 sched s1 r1 s2 r2 :
+  seq_phase mx c n1 sched (init b) = Some (s1, r1) -> seq_phase mx c n2 r1 s1 = Some (s2, r2) ->
+  exists evs, s2 = crun mx c b evs.
+Proof.
+  intros H1 H2. apply seq_phase_reach in H1 as [e1 ->]. apply seq_phase_reach in H2 as [e2 ->].
+  exists (e1 ++ e2). unfold crun. by rewrite fold_left_app.
 Qed.
 
 (* non-vacuity: two deliveries race for a present command, an injected error first; and a
@@ -318,4 +398,23 @@ Proof.
   { clear -Hin. induction l as [|a l IH]; simpl in Hin; [done|]. destruct Hin as [Heq|Hin]; [by simplify_eq|auto]. }
   unfold deletes_of. destruct (accepts 1 d) eqn:E1, (accepts 2 d) eqn:E2; simpl; try done.
   exfalso. eapply accepts_exclusive; eauto.
+Qed.
+
+(* the Commands the CLI writes are exactly the ones the matching controller's filter accepts.
+   Convention: the kind code of a reference (1 Job, 2 Queue) stands for the (Kind, APIVersion)
+   pair that metav1.NewControllerRef writes from the GroupVersionKind constant
+   (helpers.JobKind / helpers.V1beta1QueueKind); the harness maps a reference to 1 / 2 only
+   if BOTH strings are the expected ones (refTokens) *)
+Definition dcmd_of (c : command) : dcmd :=
+  mkDcmd (Some (o_kind (c_target c), o_kind (c_target c))) (c_ns c) (o_name (c_target c)) (c_action c).
+
+Theorem cli_commands_are_accepted v ns t c :
+  cli_create v ns t = [c] ->
+  accepts (verb_kind v) (dcmd_of c) = true /\
+  (forall ctrl, ctrl <> verb_kind v -> ctrl = 1 \/ ctrl = 2 -> accepts ctrl (dcmd_of c) = false) /\
+  dreq (verb_kind v) (dcmd_of c) = (if verb_kind v =? 1 then cmd_ns v ns else 0, t_name t, verb_action v).
+Proof.
+  unfold cli_create. intros [= <-]. unfold accepts, dcmd_of, dreq. simpl.
+  rewrite Z.eqb_refl. split; [done|]. split; [|done].
+  intros ctrl Hne _. destruct (verb_kind v =? ctrl) eqn:E; [|done]. apply Z.eqb_eq in E. congruence.
 Qed.
